@@ -17,7 +17,8 @@ CHECKS = {
          'shuffled matcher); compares the reported matrix/shift in Coq with the exact model fit of the true pairs '
          '(agree06) and measures that every catalog pixel lands on its reference (gWCS <= 1e-7 arcsec; FITS within '
          '4 D rho^2 scale^2 px, measured constant <= 1.0), reported rmse = residual through the corrected WCS on '
-         'noisy data, fit_RA/fit_DEC = corrected positions.',
+         'noisy data, fit_RA/fit_DEC = corrected positions. Tables may carry foreign columns (stale RA/DEC in image '
+         'tables, x/y in reference tables).',
          'PARTIAL: the FITS second-order reprojection bound is measured, not proved; external transforms (wcslib, '
          'gwcs) enter as Section hypotheses. Rounding outside the theorems. Known finding K6 (clipping of '
          'rounding-level residuals down to two sources loses the handedness of a reflected true map).',
@@ -31,7 +32,8 @@ CHECKS = {
          'pipeline with the exact model after every step of random dyadic histories, and evaluates the C02 identity '
          'on gWCS (<= 1e-7 arcsec) and FITS correctors (bound 4(|s|+|M-I|rho) r^2 + quantum terms, measured '
          'constant <= 1.6) over geometries incl. RA wrap, high declination, SIP, CD/PC, reference planes. '
-         'References that carry 2-3 own-plane corrections of their own are included.',
+         'References that carry 2-3 own-plane corrections of their own are included. FITS geometries include '
+         'look-up-table distortions that do not vanish at CRPIX.',
          'PARTIAL for FITS off the reference pixel and for reference planes with another tangent point: the '
          'second/first-order curvature bounds are measured, not proved. wcslib/gwcs/astropy.modeling are external '
          '(Section hypotheses: inverse pairs, P_c(0)=c).',
@@ -42,7 +44,7 @@ CHECKS = {
          'Machine-checked invariant over arbitrary histories of the corrector state machine (invertibility of the '
          'accumulated affine preserved); each run exercises round trips and the triangle on shapes (), (1,), (n,), '
          '(n,m) for fresh, corrected, copied and re-wrapped FITS and gWCS correctors and compares pipeline '
-         'observables with the model in Coq.',
+         'observables with the model in Coq. FITS geometries include CPDIS / DET2IM look-up-table distortions.',
          'Array shapes and the external transforms are measured. Known finding K4 (gwcs outside_footprint makes '
          'world_to_det NaN for some in-image positions).',
          'DESIGN.md section 6 (corrector algebra)'),
@@ -52,7 +54,8 @@ CHECKS = {
          'Machine-checked theorems by induction over histories, refutation witness for the pre-F7 code. Each run '
          'replays random dyadic histories on live / copied / re-wrapped correctors and compares tp_affine and the '
          'frame list with the model in Coq (own-plane and copy/re-wrap variants exactly, reference-plane variants '
-         'within 2^-40), and checks the group laws on the sky for FITS and gWCS.',
+         'within 2^-40), and checks the group laws on the sky for FITS and gWCS. Reference correctors with their '
+         'own correction history; a live reference equals the corrector rebuilt from its corrected WCS.',
          'Independence of copies and "caller\'s FITS WCS object never modified" are measured (the model is purely '
          'functional). External transforms as Section hypotheses.',
          'DESIGN.md section 6 (corrector algebra)'),
@@ -66,7 +69,7 @@ CHECKS = {
          'rounding level when planes coincide, otherwise within 10 corr sep L rad (measured <= 3.9); all members '
          'land on the reference; correspondence of the conjugated affines in Coq. A mosaic stream aligns two images '
          'in one align_wcs(expand_refcat=True) call through three planes (the second image is matched to rows '
-         'appended from the first).',
+         'appended from the first). The live corrector object of a member is among the reference planes.',
          'PARTIAL: the first-order plane-to-plane bound is measured, not proved. Mixed FITS/gWCS groups not driven.',
          'DESIGN.md section 6 (corrector algebra)'),
  'C06': ('Coq proof (weighted least-squares optimality of fit_shifts / fit_rscale incl. reflections / fit_rshift / '
@@ -86,7 +89,8 @@ CHECKS = {
          'concrete three-valued step used for validation is proved to coincide with the abstract step outside the '
          "tolerance band; refutation witness for the pre-fix loop (F2). Each run validates the implementation's "
          'histories step by step (retained set, stop condition, eff_nclip, fit = exact optimum of the retained '
-         'points, statistics recomputed exactly) in Coq.',
+         'points, statistics recomputed exactly) in Coq. Constant and piecewise-constant weight streams (weighted '
+         'std estimator).',
          'Cut-off decisions within a 2^-20 relative band are accepted either way (rounding); mae through a rational '
          'sqrt enclosure. Trusted: Coq kernel + vm_compute, python harness.',
          'DESIGN.md section 6 (C07)'),
@@ -99,7 +103,8 @@ CHECKS = {
          'weight scalings, uniform weights, other centres, exact lattice similarities (both sets / xy alone) to '
          'iter_linear_fit with clipping and checks the induced conjugation, and compares the transformed runs with '
          'the exact model in Coq. Parameter-level theorems (through uniqueness of the minimiser) for permutation, '
-         'weight scaling (similarity family), translation / centre and similarity conjugation (general family).',
+         'weight scaling (similarity family), translation / centre and similarity conjugation (general family). One '
+         'set of caller-owned longdouble arrays is shared by all calls of a case.',
          'Parameter-level equalities are proved for permutations (shift, general, similarity families, via '
          'uniqueness of the optimum); for weight scaling, centres and similarity transforms the PARTIAL part is '
          'that only the objective-level statements are proved (parameter equality needs the same uniqueness '
@@ -116,7 +121,7 @@ CHECKS = {
          'in Coq with the exact fit of the true pairs carrying the true weights. A clipping stream runs the same '
          'variants (plus zero-weight sources moved by a fraction of the unit) through iter_linear_fit with nclip=3 '
          "in both clip_accum modes; an expand_refcat stream compares the second image's fit with the exact weighted "
-         "fit when appended reference rows carry the first image's weights.",
+         "fit when appended reference rows carry the first image's weights. Integer weight dtypes.",
          'Rounding outside the theorems. The matcher is scripted (ground truth). Trusted: Coq kernel + vm_compute, '
          'python harness, astropy/wcslib transforms used to compute expected tangent-plane coordinates.',
          'DESIGN.md section 6 (C08/C09)'),
@@ -131,7 +136,8 @@ CHECKS = {
          'the residual identity xy - (F (uv - c) + s + c), and rmse/mae/std recomputed from the reported residuals '
          'and weights. Statistics theorems over Q: rmse^2 value, std^2 decomposition with a proved-positive '
          'denominator, mae enclosure ordered and <= rmse; similarity fits: proper-rotation shortcut = general '
-         'decomposition, reflected similarity reports skew -180.',
+         'decomposition, reflected similarity reports skew -180. Matrix units 2^-30..2^12, integer weight dtypes, '
+         'scalar calling forms of build_fit_matrix; constant weights: std factor n/(n-1) (theorem).',
          'Theorems depend on the standard library real-number axioms (sig_forall_dec, sig_not_dec, '
          'functional_extensionality_dep, classic). arctan2/cos/sin are libm (cos/sin of reported angles taken from '
          'python math). The left-inverse direction (decomposition of a built matrix) is proved too.',
@@ -144,7 +150,8 @@ CHECKS = {
          'through XYXYMatch.__call__ and WCSGroupCatalog.match2ref and compares the SET of returned pairs with the '
          'specification inside Coq; index ranges, order of the two arrays, repeats are checked on the '
          'implementation. Also through the deprecated tp_wcs= calling form, and with one matcher object reused in '
-         'user-offset mode over catalogs on both sides of the estimate.',
+         'user-offset mode over catalogs on both sides of the estimate. One reference Table object re-assigned in '
+         'place between calls; get_unmatched_cat is the complement of the matches, also after re-matching.',
          'PARTIAL: the matcher itself (stsci.stimage.xyxymatch, C code) is external - the theorem is about the '
          'specification matcher, the glue is tied by correspondence. Rounding outside the theorems.',
          'DESIGN.md section 6 (C12/C11)'),
@@ -170,7 +177,8 @@ CHECKS = {
          'good/junk/empty/coincident catalogs, refcat none/table/corrector, expand x enforce x minobj x fitgeom, '
          'scripted matcher, counting correctors) and compares statuses, correction counts, exception class with the '
          'model in Coq; sky grids of REFERENCE/FAILED inputs must be bit-identical. Scenarios include a world-scale '
-         'dimension (fields of ~15 arcsec whose overlaps are < 1e-8 sr).',
+         'dimension (fields of ~15 arcsec whose overlaps are < 1e-8 sr). Direct-predicate streams: 3-4 mutually '
+         'disjoint fields; invalid sigma rejected before any change.',
          'Known findings K13a (match=None length mismatch raises mid-run) and K13c (singular fitted matrix makes '
          'set_correction raise mid-run). Only FITS-WCS correctors are driven. Trusted: Coq kernel, python harness.',
          'DESIGN.md section 6 (C13/C14)'),
@@ -181,7 +189,8 @@ CHECKS = {
          'compares number / ids / order / provenance of returned catalog rows of scripted scenarios with the model '
          'in Coq, checks original rows bit-identical, and aligns synthetic overlapping mosaics with the real '
          'XYXYMatch measuring that common sources agree on the sky (<= 1e-6 arcsec, measured max 5.7e-8). Scenarios '
-         'include a world-scale dimension (fields of ~15 arcsec whose overlaps are < 1e-8 sr).',
+         'include a world-scale dimension (fields of ~15 arcsec whose overlaps are < 1e-8 sr). Image catalogs may '
+         'carry stale RA/DEC columns.',
          'PARTIAL: the numerical sky agreement is measured, not proved (only the triangle-inequality lemma). '
          'Trusted: Coq kernel, python harness, astropy/wcslib.',
          'DESIGN.md section 6 (C13/C14)'),
@@ -192,7 +201,8 @@ CHECKS = {
          'align_wcs grouping block for every matrix / list length, with refutation witnesses for the pre-fix code '
          '(F4, F5, F9); each run calls the private helpers with duck-typed rectangles in EVERY permutation of each '
          'generated set (2..6 footprints, both enforce_user_order values) and compares indices, areas and the '
-         'remaining work list with the model in Coq; align_wcs end to end for the grouping order.',
+         'remaining work list with the model in Coq; align_wcs end to end for the grouping order. Groups with a gap '
+         'between members under every bb_policy (areas are member-wise); falsy group labels.',
          'Spherical overlap areas are external (rectangles with exact areas are used at helper level). Ties are '
          'checked against the property predicate only. Trusted: Coq kernel + vm_compute, python harness.',
          'DESIGN.md section 6 (C15)'),
@@ -206,7 +216,9 @@ CHECKS = {
          'witnesses for the pre-fix code (F6 direction, F10, F14). Each run compares convex_hull outputs on '
          'integer/dyadic point sets EXACTLY with the model in Coq and evaluates containment / box extent / overlap '
          'symmetry and bounds on image, group and reference catalogs across the sky. RefCatalog growth histories '
-         '(constructor on 1..5 sources, then expand_catalog steps) are checked after every step.',
+         '(constructor on 1..5 sources, then expand_catalog steps) are checked after every step. Degenerate-row '
+         'reference catalogs (repeated positions, collinear runs; defect F20 fixed); union fall-back path with a '
+         'simulated library fault.',
          'Spherical geometry (polygons, union, intersection, areas; the arcsec->radian half of F6) is external: '
          'measured only (the F11 rotation order is modelled and proved in SkyRot.v). Known findings K2 and K3 '
          '(spherical_geometry multi_union; summed member-wise overlaps). Trusted: Coq kernel + vm_compute, python '
@@ -220,7 +232,8 @@ CHECKS = {
          'the current source by evaluating `agree` (entrywise and residual bound 64 n cond eps against the exact '
          'inverse; raised <-> Singular) in Coq on inputs run through the implementation on every run. Both '
          'implementations selected by long-double capability are run (the numpy branch is switched on through the '
-         "module attribute, as the repository's tests do); known finding K1n for that branch.",
+         "module attribute, as the repository's tests do); known finding K1n for that branch. Degenerate "
+         'configurations also through iter_linear_fit.',
          'Floating-point rounding is outside the theorems (bound measured, not proved). Trusted: Coq kernel + '
          'vm_compute, the python harness, the K1 classifier. Known finding K1 (rounding hides zero pivots).',
          'DESIGN.md section 6 (C17)'),
@@ -230,7 +243,8 @@ CHECKS = {
          'Machine-checked theorems about the FITS correction model; each run corrects celestial TAN WCSs (CD and '
          'PC, SIP on/off, pointings/orientations/scales), compares CRVAL and the linear matrix with the flat model '
          'where applicable, checks every other attribute unchanged, header round trip, and that CD and PC+CDELT '
-         'twins give identical corrected sky mappings; non-celestial / missing WCS rejected with ValueError.',
+         'twins give identical corrected sky mappings; non-celestial / missing WCS rejected with ValueError. '
+         'Reference pixel off the detector; explicit non-default LONPOLE.',
          'Header I/O and wcslib are external (measured). LATPOLE tracks CRVAL by wcslib default and is excluded '
          'from the attribute diff.',
          'DESIGN.md section 6 (corrector algebra)'),
@@ -243,7 +257,8 @@ CHECKS = {
          'array-level functions (+ nested helpers) of linearfit/linalg/matchutils/wcsimage from /repo and Coq '
          'evaluates the checker on it; a monitor snapshots every argument byte-for-byte around calls of ALL entry '
          'points (incl. fit_wcs, align_wcs, XYXYMatch, set_correction; dtypes float32/64/longdouble; sequences of '
-         '1..3 calls; repeated calls) and searches for the concrete failing input when an obligation breaks.',
+         '1..3 calls; repeated calls) and searches for the concrete failing input when an obligation breaks. Caller '
+         'tables that already carry TPx/TPy columns; translator resolves sibling nested helpers and return types.',
          'PARTIAL: object-level entry points (tables, correctors, deep copies) and repeatability are monitored, not '
          'proved. Trusted: the translator and its numpy/builtin classification table, the container encoding; a '
          'caller-supplied callable is assumed not to return retained state.',
@@ -254,7 +269,8 @@ CHECKS = {
          'Machine-checked theorems about tanp_pixel_scale on the corrector model; each run compares '
          'tanp_pixel_scale(x, y)^2 with |det J| of a finite-difference Jacobian of det_to_tanp for FITS (CD/PC/SIP) '
          'and gWCS correctors over positions and correction histories, tanp_center_pixel_scale with the value at '
-         'the detector position of the tangent point, and the units.',
+         'the detector position of the tangent point, and the units. Repeated identical corrections; mock gWCS with '
+         'a distorted detector map.',
          'Square root, units and non-affine (distorted) maps are measured; the theorem covers affine det->tanp '
          'maps.',
          'DESIGN.md section 6 (corrector algebra)'),
